@@ -505,5 +505,35 @@ def replace_same_length(shape_nodes, typed):
                 if q != p and q != i and j != p:
                     yield [["move", i, q, None], ["move", j, p, True]]
     for p in sorted({q for q, _, _ in flat}):
+        yield [["sort", p, False, False]]
         yield [["sort", p, True, False]]
-        yield [["sort", p, False, False], ["sort", p, True, False]]
+        yield [["sort", p, False, True], ["sort", p, True, False]]
+
+
+def typed_consistency(tree):
+    """kind-aware answers of a typed tree against the plain structure (pointer walk, identity): get_index(),
+    get_children(kind), has_children(kind) - asked by C10 as well, because they must agree with the sibling queries"""
+    for i, n in enumerate(B.all_nodes(tree._root)):
+        sibs = n._parent._children or []
+        same = [s for s in sibs if s._kind == n._kind]
+        pos = [j for j, s in enumerate(same) if s is n]
+        try:
+            gi = n.get_index()
+        except Exception as e:  # noqa: BLE001
+            gi = f"{type(e).__name__}"
+        if pos != [gi]:
+            return f"get_index() of typed node {i + 1} (pre-order): got {gi}, its position among the siblings of its kind is {pos}"
+        ch = n._children or []
+        for k in sorted({c._kind for c in ch} | {"zz"}):
+            exp = [c for c in ch if c._kind == k]
+            try:
+                got = n.get_children(k)
+                hc = n.has_children(k)
+            except Exception as e:  # noqa: BLE001
+                return f"get_children({k!r}) of typed node {i + 1} raised {type(e).__name__}"
+            if len(got) != len(exp) or any(a is not b for a, b in zip(got, exp)):
+                return (f"get_children({k!r}) of typed node {i + 1} (pre-order): got the children at positions "
+                        f"{[next((j for j, c in enumerate(ch) if c is g), -7) for g in got]} expected {[j for j, c in enumerate(ch) if c._kind == k]}")
+            if hc != bool(exp):
+                return f"has_children({k!r}) of typed node {i + 1}: got {hc} expected {bool(exp)}"
+    return None
